@@ -67,6 +67,22 @@ def modelP (nt nv : Nat) (G : PMat) : Outs := {
   gtcount := natMat (pgtcount nt nv G), gtfreq := pgtfreq (α := Rat) nt nv G,
   f012 := pfmt012 nt nv G, fM101 := pfmtM101 nt nv G, fM1m1 := pfmtM1m1 (α := Rat) nt nv G }
 
+/-- the float64 outputs with the IEEE rounding model (bit-exact expectation) -/
+def f64U (ploidy nv : Nat) (m : UMat) : Json :=
+  let af := (List.range nv).map (afreqF64At ploidy m)
+  J.obj [("afreq", J.ofList J.ofRat af),
+         ("tafreq", J.ofMat J.ofRat (m.map (fun r => r.map (tafreqF64At ploidy)))),
+         ("gtfreq", J.ofMat J.ofRat ((List.range (ploidy + 1)).map (fun i => (List.range nv).map (gtfreqF64At m i)))),
+         ("maf", J.ofList J.ofRat (af.map mafF64Of))]
+
+def f64P (nt nv : Nat) (G : PMat) : Json :=
+  let af := (List.range nv).map (pafreqF64At nt G)
+  let um := psum nt nv G
+  J.obj [("afreq", J.ofList J.ofRat af),
+         ("tafreq", J.ofMat J.ofRat (um.map (fun r => r.map (tafreqF64At G.length)))),
+         ("gtfreq", J.ofMat J.ofRat ((List.range (G.length + 1)).map (fun i => (List.range nv).map (gtfreqF64At um i)))),
+         ("maf", J.ofList J.ofRat (af.map mafF64Of))]
+
 /-- {"op":"c09.stats","phased":b,"nt":..,"nv":..,"ploidy":..,"mat":..} -/
 def opStats : J.Op := fun j => do
   let phased ← J.field j "phased" J.bool
@@ -76,11 +92,13 @@ def opStats : J.Op := fun j => do
     let G ← J.field j "mat" (J.list (J.mat J.int))
     let (pl, um) := project nt nv G
     pure <| J.obj [("P", encOuts (modelP nt nv G)), ("U", encOuts (modelU pl nv um)),
+                   ("P64", f64P nt nv G), ("U64", f64U pl nv um),
                    ("valid", J.ofBool (decide (ValidP nt nv G)))]
   else
     let m ← J.field j "mat" (J.mat J.int)
     let pl ← J.field j "ploidy" J.nat
-    pure <| J.obj [("U", encOuts (modelU pl nv m)), ("valid", J.ofBool (decide (ValidU pl nv m)))]
+    pure <| J.obj [("U", encOuts (modelU pl nv m)), ("U64", f64U pl nv m),
+                   ("valid", J.ofBool (decide (ValidU pl nv m)))]
 
 /-! ## the Spec: textbook definitions on the raw calls -/
 
